@@ -1,0 +1,34 @@
+// This Source Code Form is subject to the terms of the Mozilla Public
+// License, v. 2.0. If a copy of the MPL was not distributed with this
+// file, You can obtain one at http://mozilla.org/MPL/2.0/.
+
+//go:build verif
+
+package compression
+
+// Contracts for the deductive verifier in /verif (govc). Comment-only file: it
+// adds no code. Lines starting with //@ are parsed by govc; see /verif/DESIGN.md.
+//
+// C18, local framing logic of the compression wrapper: marker bytes, size threshold, rejection of
+// unknown compressor IDs, and in-bounds access for every byte string. The compressor itself
+// (zstd) and the underlying marshaler are used through assumed interface contracts.
+
+//@ fn compressorID(c Compressor) byte
+//@ iface Compressor.ID
+//@   pure
+//@   ensures result == compressorID(self)
+//@ iface Compressor.Compress
+//@   ensures [prefix-kept] err == nil ==> len(result0) >= len(prefix) && (forall i int :: 0 <= i && i < len(prefix) ==> result0[i] == prefix[i])
+//@ iface Compressor.Decompress
+//@
+//@ func (*Marshaler).MarshalResource
+//@   props C18
+//@   requires m != nil && m.underlying != nil && m.compressor != nil
+//@   ensures [compressed-marker] err == nil && !(len(result0) < m.minSize) ==> len(result0) >= 2 && result0[0] == 0 && result0[1] == compressorID(m.compressor)
+//@
+//@ func (*Marshaler).UnmarshalResource
+//@   props C18
+//@   requires m != nil && m.underlying != nil && m.compressor != nil
+//@   at Decompress #1
+//@     assert [only-marked-data-decompressed] len(b) > 1 && b[0] == 0 && b[1] == compressorID(m.compressor)
+//@   ensures [unknown-id-rejected] len(old(b)) > 1 && old(b[0]) == 0 && old(b[1]) != compressorID(m.compressor) ==> err != nil
